@@ -458,7 +458,7 @@ theorem core_frame_restored {p : Prog} {ck : Bool} {B dA : Nat} {fa : FAddr} {fn
     ∃ st', Reach (sphinx p) ⟨pc, m⟩ tr st' ∧ Keep p.w m st'.mem F ∧ st'.mem.readLE p.w p.w = F ∧
       (res = .norm → st'.pc = pc + (cS (cxOf p ck B dA) fa lp Γ pc o s).length) ∧ (res ≠ .norm → st'.pc = ra) := by
   have hc := cS_ok lib fok fuel F D ra hra lp hlp .plain false s Γ env pc o m env' tr res hpl hB hinv hd (by rw [hvd]; exact hwf) hpk ho hex
-    (by rcases hres with h | h | ⟨v, h⟩ <;> subst h <;> trivial) (Or.inl ⟨(by intro h; cases h), (by intro h; rw [hvd] at h; cases h), hnt⟩)
+    (by rcases hres with h | h | ⟨v, h⟩ <;> subst h <;> trivial) (Or.inl ⟨(by intro h; cases h), (by intro h; rw [hvd] at h; cases h), hnt, Or.inl HaltW.plain⟩)
   obtain ⟨st', r, hp⟩ := hc.2 (nd (by rcases hres with h | h | ⟨v, h⟩ <;> subst h <;> simp))
   have hfp := hinv.fr.fp
   rcases hres with h | h | ⟨v, h⟩ <;> subst h <;> simp only [Post] at hp
